@@ -43,8 +43,24 @@ class ReqBehaviour(D.ScriptedBehaviour):
             self.run.log("session", s=conn.id + 1)
 
 
+class _PlainOwner:
+    """Owner stub for a plain HomeKitConnection (the class accepts concurrency_limit > 1)."""
+    name = "sim-plain"
+
+    def __init__(self, run):
+        self.run = run
+
+    async def connection_made(self, secure):
+        return None
+
+    def event_received(self, parsed):
+        for c in parsed.get("characteristics", []):
+            self.run.log("listener", s=c["aid"], n=c["iid"])
+
+
 class ReqRun:
-    def __init__(self, nreq=12):
+    def __init__(self, nreq=12, limit=1):
+        self.limit = limit
         self.events = []
         from . import simnet, vloop
         import types
@@ -64,8 +80,15 @@ class ReqRun:
             p = IpPairing(controller, pdata)
             p.restore_accessories_state(simnet.DEFAULT_ACCESSORIES, 1, None)
             return p
-        self.pairing = self.loop.run_until_complete(mk())
-        self.pairing.dispatcher_connect(self._listener)
+        if limit == 1:
+            self.pairing = self.loop.run_until_complete(mk())
+            self.pairing.dispatcher_connect(self._listener)
+        else:
+            from aiohomekit.controller.ip.connection import HomeKitConnection
+
+            async def mkc():
+                return HomeKitConnection(_PlainOwner(self), [D.HOSTS["h1"]], 51826, concurrency_limit=limit)
+            self.pairing = types.SimpleNamespace(connection=self.loop.run_until_complete(mkc()))
         self.tasks = {}
         self.next_r = 1
         self.nreq = nreq
@@ -76,6 +99,8 @@ class ReqRun:
 
     # ---- logging (tcp-level events of the connector are not part of this alphabet)
     def log(self, ev, **kw):
+        if ev == "tcp_ok" and self.limit > 1:
+            ev, kw = "session", {"s": kw["conn"]}         # a plain connection is usable as soon as it exists
         if ev in ("tcp_call", "tcp_res", "tcp_ok", "acc_eof"):
             return
         if ev == "peer_close":
@@ -168,9 +193,19 @@ class ReqRun:
         self.closed_by_user = False
         self.settle()
 
-    def cancel(self, r):
-        self.log("cancel", r=r)
-        self.tasks[r].cancel()
+    def cancel(self, r, in_loop=False):
+        if not in_loop:
+            self.log("cancel", r=r)
+            self.tasks[r].cancel()
+            return
+        # cancel from inside the loop iteration that also collects pending socket readiness: bytes that were
+        # already readable are then processed AFTER the cancellation but BEFORE the cancelled task runs
+        def f():
+            if r in self.tasks and not self.tasks[r].done():
+                self.log("cancel", r=r)
+                self.tasks[r].cancel()
+        self.loop.call_soon(f)
+        self.step(1)
 
     def respond(self, conn, how="resp", status=200):
         req = conn.unanswered[0]
@@ -227,8 +262,8 @@ class ReqRun:
         return {"id": rid, "events": self.events}
 
 
-def random_run(rng: random.Random, rid, nsteps=30):
-    r = ReqRun()
+def random_run(rng: random.Random, rid, nsteps=30, limit=1):
+    r = ReqRun(limit=limit)
     r._rng = rng
     try:
         r.connect()
@@ -248,7 +283,7 @@ def random_run(rng: random.Random, rid, nsteps=30):
 def stimulus(r: ReqRun, rng):
     """Returns True when the loop must be settled completely afterwards."""
     opts = []
-    live = [c for c in r.net.conns if c.open and c.session is not None]
+    live = [c for c in r.net.conns if c.open and (c.session is not None or r.limit > 1)]
     if r.next_r <= r.nreq:
         opts += [("issue",)] * 6
     for c in live:
@@ -300,7 +335,7 @@ def stimulus(r: ReqRun, rng):
         r.peer_close(o[1], o[2])
         return True
     if o[0] == "cancel":
-        r.cancel(o[1])
+        r.cancel(o[1], in_loop=rng.random() < 0.5)
         return True
     if o[0] == "advance":
         r.settle()
